@@ -78,8 +78,15 @@ def finalize(agg, tier):
     return r
 
 
+_ACK_LEVELS = [6, 5, 6, 2, 5, 1, 4]
+_ack_n = [0]
+
+
 def ack(ptype: int, sign: bool, token: bytes, call_id: int = 1) -> bytes:
-    auth = dict(type=10, level=6, pad=0, ctx=0, token=token) if token else None
+    # the level octet in the SERVER's trailers rotates through weaker values: the client asked for PKT_PRIVACY and must
+    # keep sealing its requests whatever that octet says (or refuse to go on) - it is not an instruction to the client
+    _ack_n[0] += 1
+    auth = dict(type=10, level=_ACK_LEVELS[_ack_n[0] % len(_ACK_LEVELS)], pad=0, ctx=0, token=token) if token else None
     return rrpc.encode(
         dict(ptype=ptype, flags=FL | (4 if sign else 0), call_id=call_id, auth=auth, max_xmit=5840, max_recv=5840, assoc=1, sec_addr="49668" if ptype == rrpc.BIND_ACK else "", results=[(0, 0, rrpc.NDR64[0], 1), (3, 3, uuid.UUID(int=0), 0)])
     )
@@ -192,11 +199,13 @@ def run_request(spec, rec: Recorder):
                     for sign in (False, True):
                         stub = rng.randbytes(n)
                         ctx = tr.ScriptedContext((b"C1", b"C2"), 2, sig)
-                        server = tr.ScriptedContext((), 0, sig)
+                        # the peer's signatures need not have the size of ours (auth_len of the reply says how long they are)
+                        rsig = sig if (n + sig) % 3 else {16: 28, 28: 16, 60: 76, 76: 12}[sig]
+                        server = tr.ScriptedContext((), 0, rsig)
                         state = {"n": 0, "req": None}
                         reply_stub = rng.randbytes(rng.choice([0, 5, 16, 33]))
 
-                        def handler(data, state=state, sign=sign, server=server, sig=sig, reply_stub=reply_stub):
+                        def handler(data, state=state, sign=sign, server=server, sig=rsig, reply_stub=reply_stub):
                             i = state["n"]
                             state["n"] += 1
                             if i == 0:
@@ -239,7 +248,9 @@ def run_request(spec, rec: Recorder):
                             rec.violation("request-not-sent", "no request PDU reached the transport", wit)
                             continue
                         verify_request(rec, state["req"], ctx, stub, vt_ref if use_vt else None, sig, sign, wit)
-                        verify_unwrap(rec, ctx, state["reply"], sig, sign, wit)
+                        verify_unwrap(rec, ctx, state["reply"], rsig, sign, wit)
+                        if rsig != sig:
+                            rec.count("replies_with_other_signature_size")
                         # the reply the client returned must be the plaintext the server sealed (pad still attached at this layer)
                         exp = reply_stub + b"\xbb" * (-len(reply_stub) % 16)
                         if resp.stub_data not in (exp, reply_stub):  # the declared padding may be stripped here or by the caller
